@@ -159,12 +159,18 @@ def sc_automask(L_):
     return q, True
 
 
+def sc_auto_concrete(L_):
+    # automatic mask selection on concrete content, version 1 (the result is a concrete matrix)
+    return L_.segno.make('ORDER-00001', version=1, error='M', boost_error=False), True
+
+
 SCENARIOS = {
     'make:auto:2': sc_make([2], mask=1), 'make:auto-qr:3': sc_make([3], mask=2, micro=False, error='Q'), 'make:parts:2+2': sc_make([2, 2], version=1, mask=0),
     'make:parts:1+2+1': sc_make([1, 2, 1], version=2, mask=3), 'make:kanji:4': sc_make([4], mode='kanji', version=1, mask=4), 'make:hanzi:2': sc_make([2], mode='hanzi', version=1, mask=5),
     'make:eci': sc_make([2], eci=True, encoding='utf-8', mode='byte', mask=6), 'sequence:v1:30': sc_sequence(30, version=1, error='L', mask=1),
     'sequence:count3:9': sc_sequence(9, symbol_count=3, mask=2), 'automask:concrete': sc_automask, 'save:png': sc_save('png', scale=2), 'save:ppm-colours': sc_save('ppm', finder_dark='#f00'),
-    'save:svg': sc_save('svg', scale=3, light='#fff'), 'save:pdf': sc_save('pdf'), 'save:txt+eps': sc_save('eps'), 'iterate': sc_save('iter'),
+    'save:svg': sc_save('svg', scale=3, light='#fff'), 'save:pbm-b0': sc_save('pbm', border=0), 'save:pam-b0': sc_save('pam', border=0), 'save:xbm-b0': sc_save('xbm', border=0),
+    'save:xpm-b0': sc_save('xpm', border=0), 'save:txt-b0': sc_save('txt', border=0), 'save:png-b0': sc_save('png', border=0), 'save:pdf': sc_save('pdf'), 'save:txt+eps': sc_save('eps'), 'iterate': sc_save('iter'),
 }
 
 
@@ -219,12 +225,13 @@ def h_calls(name):
         'sequence-between': (sc_make([5], version=2, mask=3, mode='byte'), [sc_sequence(30, version=1, error='L', mask=1)]),
         'serialise-between': (sc_make([3], version=1, mask=5, mode='byte', error='Q'), [sc_save('png', scale=2), sc_save('ppm', finder_dark='#f00'), sc_save('svg', scale=2)]),
         'automask-between': (sc_make([2], mask=0), [sc_automask]),
+        'explicit-mask-then-automatic': (sc_auto_concrete, [sc_make([3], version=1, mask=2, mode='byte'), sc_make([2], version=1, mask=5, mode='byte', error='M')]),
         'eci-then-plain': (sc_make([3], mode='byte', version=2, mask=1), [sc_make([2], eci=True, encoding='utf-8', mode='byte', mask=6), sc_make([2], eci=True, encoding='latin1', mode='byte', mask=6)]),
     }
     return probe[name]
 
 
-HISTORIES = ('merge-then-single', 'other-modes', 'sequence-between', 'serialise-between', 'automask-between', 'eci-then-plain')
+HISTORIES = ('explicit-mask-then-automatic', 'merge-then-single', 'other-modes', 'sequence-between', 'serialise-between', 'automask-between', 'eci-then-plain')
 
 
 def job_history(res, L_, spec):
